@@ -182,3 +182,110 @@ class Walker(object):
                 self.ctx.sample({'random_walk': [l.get('act') for l in hist]})
         self.ctx.traces += done
         return done
+
+
+class NondetWalker(object):
+    """Replay for specifications whose actions are nondeterministic (the property leaves part of
+    the post-state open): sequences of LABELS are enumerated; after each real call the projected
+    state of the real object selects the successor among the edges carrying that label.  No
+    matching successor = the real object left the behaviours of the specification."""
+
+    def __init__(self, ctx, graph, adapter, family):
+        self.ctx, self.g, self.a, self.family = ctx, graph, adapter, family
+        self.failed = set()
+        self.dups = 0
+        self.steps = 0
+        self.edges_hit = set()
+        self.by_label = {}
+        for k, outs in graph.out_list.items():
+            d = {}
+            for label, tk in outs:
+                d.setdefault(key_of(label), (label, []))[1].append(tk)
+            self.by_label[k] = [d[x] for x in sorted(d)]
+
+    def _do(self, world, k, hist, label, cands):
+        self.steps += 1
+        try:
+            obs = self.a.step(world, label)
+        except Exception as ex:
+            obs = {'_unexpected': '%s: %s' % (type(ex).__name__, ex)}
+        bad = []
+        nk = None
+        if obs.get('_skip'):
+            return None
+        if '_unexpected' in obs:
+            bad.append(('NoUnexpectedException', {'observed': obs['_unexpected']}))
+        else:
+            bad += self.a.diff_obs(label, obs)
+            proj, problems = self.a.project_checked(world)
+            bad += problems
+            if not problems:
+                pk = key_of(proj)
+                if pk in cands:
+                    nk = pk
+                else:
+                    bad.append(('NoSuchSuccessor', {'observed_state': proj, 'allowed': [self.g.state[c] for c in cands]}))
+        if not bad:
+            self.edges_hit.add((k, key_of(label), nk))
+            return nk
+        for clause, detail in bad:
+            fk = (label.get('act'), label.get('fn'), clause, detail.get('array'))
+            if fk in self.failed:
+                self.dups += 1
+                continue
+            self.failed.add(fk)
+            rec = {'family': self.family, 'module': self.a.module, 'action': label.get('fn') or label.get('act'),
+                   'label': label, 'history': hist + [label], 'step': len(hist) + 1, 'detail': clause}
+            rec.update(detail)
+            self.ctx.violation(clause, rec)
+        return None
+
+    def all_label_paths(self, depth, budget=None):
+        n_paths = 0
+        complete = True
+        for ik in self.g.inits:
+            stack = [(ik, self.a.new(self.g.state[ik]), [])]
+            while stack:
+                k, world, hist = stack.pop()
+                opts = self.by_label.get(k, [])
+                if len(hist) >= depth or not opts:
+                    n_paths += 1
+                    continue
+                for label, cands in opts:
+                    if budget is not None and self.steps >= budget:
+                        complete = False
+                        stack = []
+                        break
+                    w = self.a.clone(world)
+                    nk = self._do(w, k, hist, label, cands)
+                    self.ctx.count((self.family, k, key_of(label)))
+                    if nk is not None:
+                        stack.append((nk, w, hist + [label]))
+                    else:
+                        n_paths += 1
+        self.ctx.traces += n_paths
+        return n_paths, complete
+
+    def random_label_walks(self, n, depth, seed):
+        rng = random.Random(seed)
+        done = 0
+        for _ in range(n):
+            ik = rng.choice(self.g.inits)
+            world = self.a.new(self.g.state[ik])
+            k, hist = ik, []
+            for _s in range(depth):
+                opts = self.by_label.get(k, [])
+                if not opts:
+                    break
+                label, cands = rng.choice(opts)
+                nk = self._do(world, k, hist, label, cands)
+                self.ctx.count((self.family, k, key_of(label)))
+                if nk is None:
+                    break
+                hist.append(label)
+                k = nk
+            done += 1
+            if done <= 2:
+                self.ctx.sample({'random_walk': [(l.get('fn') or l.get('act')) + ':' + str(l.get('arg', l.get('array', ''))) for l in hist]})
+        self.ctx.traces += done
+        return done
